@@ -18,7 +18,7 @@ theorem prefix_of_snoc_prefix {α : Type} {done ts : List α} {t : α} (h : done
 theorem passive_dinv {ts done : List Token} {b b' : Builder} {t : Token} (h : DInv ts done b)
     (hpre : done ++ [t] <+: ts) (ht : t.passive = true) (hc : b'.cur = b.cur) (hp : b'.parents = b.parents)
     (hs : b'.spans = b.spans) (hns : b'.nsStack = b.nsStack) (hop : b'.openPrefixes = b.openPrefixes)
-    (he : EnvApp b.env b'.env)
+    (he : SdEnvApp b.env b'.env)
     (heb : ∀ e, b'.eb = some e → EbFacts ts e) : DInv ts (done ++ [t]) b' := by
   refine ⟨hpre, ?_, ?_, heb, ?_, ?_⟩
   · rw [hc, hp, hs, hns]
@@ -60,7 +60,7 @@ theorem addText_dinv {ts done : List Token} {b : Builder} (h : DInv ts done b) {
         (b.curPath ++ [b.cur.rkids.length]) content :=
       ⟨[t], [], tsp.span, ⟨done, by simp⟩, (fun x hx => by cases hx), runOk_single hreal hspan, hval,
         by rw [hm]; exact get_add_self _ _ _⟩
-    exact addLeaf_dinv (done' := done ++ [t]) h hpre (.text content) _ b.env (EnvApp.refl _)
+    exact addLeaf_dinv (done' := done ++ [t]) h hpre (.text content) _ b.env (SdEnvApp.refl _)
       (by intro n w hh; cases hh) (by intro p n hh; cases hh)
       (fun k hk => by rw [hm]; exact get_add_other _ _ _ _ (fun he => hk (by rw [he])))
       (fun k hk => by
@@ -121,7 +121,7 @@ theorem step_dinv {ts done : List Token} {b b' : Builder} (t : Token) (hok : Bui
           · simp only [Step.ok.injEq] at hr
             subst hr
             refine passive_dinv h hpre rfl rfl rfl rfl rfl rfl
-              ((internPrefix_app _ _).trans (internNamespace_app _ _)) ?_
+              ((sd_internPrefix_app _ _).trans (sd_internNamespace_app _ _)) ?_
             intro e he
             simp only [Option.some.injEq] at he
             subst he
@@ -143,7 +143,7 @@ theorem step_dinv {ts done : List Token} {b b' : Builder} (t : Token) (hok : Bui
             · next v hv =>
               simp only [Step.ok.injEq] at hr
               subst hr
-              refine passive_dinv h hpre rfl rfl rfl rfl rfl rfl (EnvApp.refl _) ?_
+              refine passive_dinv h hpre rfl rfl rfl rfl rfl rfl (SdEnvApp.refl _) ?_
               intro e he
               simp only [Option.some.injEq] at he
               subst he
@@ -168,7 +168,7 @@ theorem step_dinv {ts done : List Token} {b b' : Builder} (t : Token) (hok : Bui
     · next hemp =>
       simp only [Step.ok.injEq] at hr
       subst hr
-      exact passive_dinv h hpre (by simpa [Token.passive] using hemp) rfl rfl rfl rfl rfl (EnvApp.refl _) h.eb
+      exact passive_dinv h hpre (by simpa [Token.passive] using hemp) rfl rfl rfl rfl rfl (SdEnvApp.refl _) h.eb
     · next hemp =>
       simp only [Step.ok.injEq] at hr
       subst hr
@@ -177,7 +177,7 @@ theorem step_dinv {ts done : List Token} {b b' : Builder} (t : Token) (hok : Bui
   | elementStart pfx loc sp =>
     simp only [Builder.stepCore, Builder.element, Step.ok.injEq] at hr
     subst hr
-    refine passive_dinv h hpre rfl rfl rfl rfl rfl rfl (EnvApp.refl _) ?_
+    refine passive_dinv h hpre rfl rfl rfl rfl rfl rfl (SdEnvApp.refl _) ?_
     intro e he
     simp only [Option.some.injEq] at he
     subst he
@@ -227,14 +227,14 @@ theorem step_dinv {ts done : List Token} {b b' : Builder} (t : Token) (hok : Bui
         have hel : b1.cur.value.isElement = true := by rw [hid]; rfl
         simp only [hel, if_true] at hr
         exact leave_dinv (b1 := { b1 with nsStack := b1.nsStack.tail, openPrefixes := b1.openPrefixes.tail })
-          h1 hpre hid htok (by intro hh; cases hh) rfl rfl rfl rfl rfl rfl (EnvApp.refl _)
+          h1 hpre hid htok (by intro hh; cases hh) rfl rfl rfl rfl rfl rfl (SdEnvApp.refl _)
           (fun _ _ hh => by cases hh) hr
       | err e env => rw [hb] at hr; cases hr
       | panic => rw [hb] at hr; cases hr
   | comment t sp =>
     simp only [Builder.stepCore, Builder.comment, Step.ok.injEq] at hr
     subst hr
-    exact addLeaf_dinv (done' := done ++ [.comment t sp]) h hpre (.comment (normalizeLineEnds t.text)) _ b.env (EnvApp.refl _)
+    exact addLeaf_dinv (done' := done ++ [.comment t sp]) h hpre (.comment (normalizeLineEnds t.text)) _ b.env (SdEnvApp.refl _)
       (by intro n w hh; cases hh) (by intro p n hh; cases hh)
       (fun k hk => get_add_other _ _ _ _ (fun he => hk (by rw [he])))
       (fun k hk => by
@@ -252,7 +252,7 @@ theorem step_dinv {ts done : List Token} {b b' : Builder} (t : Token) (hok : Bui
     subst hr
     refine addLeaf_dinv (done' := done ++ [.pi target content sp]) h hpre
       (.pi (b.env.internName target.text Env.noNamespace).2 (content.map (fun c => normalizeLineEnds c.text))) _
-      (b.env.internName target.text Env.noNamespace).1 (internName_app _ _ _)
+      (b.env.internName target.text Env.noNamespace).1 (sd_internName_app _ _ _)
       (by intro n w hh; cases hh) (by intro p n hh; cases hh) ?_ ?_ ?_ (fun s hs => by cases hs)
     · intro k hk
       cases content with
@@ -286,7 +286,7 @@ theorem step_dinv {ts done : List Token} {b b' : Builder} (t : Token) (hok : Bui
     · cases hr
     · simp only [Step.ok.injEq] at hr
       subst hr
-      exact passive_dinv h hpre rfl rfl rfl rfl rfl rfl (EnvApp.refl _) h.eb
+      exact passive_dinv h hpre rfl rfl rfl rfl rfl rfl (SdEnvApp.refl _) h.eb
   | dtdStart sp => simp [Builder.stepCore] at hr
   | dtdEnd sp => simp [Builder.stepCore] at hr
   | emptyDtd sp => simp [Builder.stepCore] at hr
